@@ -6,8 +6,10 @@ EXPLANATION = (
     "Provenance clauses over resolved MIR: each mode's GradualPerformance::new builds its inner gradual difficulty from "
     "exactly its two parameters (osu: the captured lazer flag is d.get_lazer()) (R1); in each nth(state, n) the inner "
     "Iterator::nth receives the parameter n on self.difficulty, and the receiver chain of the final Performance::calculate "
-    "contains the attributes returned by that inner nth, a state(_, <parameter state>) step and a difficulty(_, clone of "
-    "the captured Difficulty) step (R2). Dropping the captured settings or feeding a modified state compiles and the "
+    "contains the attributes returned by that inner nth, a state(_, <parameter state>) step, and every Difficulty setting that the mode's performance "
+    "calculation consults once attributes are given (call-graph reachability from generate_state/calculate, cut at the attribute "
+    "computation) reaches calculate() from the captured Difficulty — passed_objects from the calculator's own position (R2; the "
+    "builder chain is run abstractly, so `.difficulty(d)`, `.mods(d.get_mods())` or a field captured in new() are all accepted). Dropping the captured settings or feeding a modified state compiles and the "
     "fixture (all-miss state, HDHRDT) notices only gross variants. Equality with the one-shot value is numeric: NOT "
     "decided. next/last delegation is C15-R1.")
 
@@ -38,6 +40,60 @@ def receiver_chain(v):
             continue
         break
     return out, cur
+
+
+DIFF_SETTERS = ('mods', 'lazer', 'clock_rate', 'ar', 'cs', 'hp', 'od', 'hardrock_offsets', 'passed_objects')
+
+
+def consulted_settings(F, mode):
+    """Difficulty::get_* reachable from {generate_state, calculate} of the mode's Performance without entering the attribute
+    computation (the gradual path always supplies attributes)"""
+    import callgraph
+    from facts import callee_path
+    cg = callgraph.of(F)
+    stop = {f.path for f in F.fns if f.name == 'calculate_for_mode' or (f.impl_trait == 'model::mode::IGameMode' and f.name == 'difficulty')}
+    adt = '%s::performance::%sPerformance' % (mode, CAP[mode])
+    roots = {f.path for f in F.fns if f.self_adt == adt and f.name in ('generate_state', 'calculate')}
+    out = set()
+    for p in cg.reachable_from(roots, stop):
+        f = F.fn(p)
+        if f is None or p in stop:
+            continue
+        for bi, t in f.calls():
+            c = callee_path(t)
+            if c.startswith('any::difficulty::Difficulty::get_'):
+                out.add(c.split('::')[-1])
+    return out
+
+
+def simulate_settings(F, adt, new_fn, chain):
+    """abstract run of the builder chain (innermost call first): setting -> 'default' | 'captured' | 'idx' | 'other'"""
+    state = {'*': 'default'}
+    # fields of the gradual performance struct that new() fills with difficulty.get_<field>()
+    captured_fields = set()
+    rv = prov.prov_of(new_fn).return_value()
+    for x in prov.walk(rv):
+        if x[0] == 'agg' and x[2] == adt:
+            for f, v in x[4].items():
+                sv = prov.strip(v, names=set())
+                if sv[0] == 'call' and sv[1].get('name') == 'get_' + f and as_param_path(sv[2][0]) == (1, ()):
+                    captured_fields.add(f)
+    for name, args, node in reversed(chain):
+        if name == 'difficulty' and len(args) == 1:
+            src = 'captured' if as_param_path(args[0]) == (1, ('difficulty', 'difficulty')) else 'other'
+            state = {'*': src}
+        elif name in DIFF_SETTERS and args:
+            a = args[0]
+            cls = 'other'
+            sa = prov.strip(a, names={'clone', 'into', 'from', 'to_owned'})
+            if sa[0] == 'call' and sa[1].get('name') == 'get_' + name and as_param_path(sa[2][0]) == (1, ('difficulty', 'difficulty')):
+                cls = 'captured'
+            elif as_param_path(a) == (1, (name,)) and name in captured_fields:
+                cls = 'captured'
+            elif name == 'passed_objects' and any(as_param_path(x) == (1, ('difficulty', 'idx')) for x in prov.walk(a, limit=50)):
+                cls = 'idx'
+            state[name] = cls
+    return state
 
 
 def run(ctx):
@@ -100,13 +156,21 @@ def run(ctx):
         ctx.require(ok_b, 'C03-R2', '%s:nth:state' % mode, '.state(<parameter state>) is applied unmodified', nth.where(),
                     bad='%s::nth: the score state handed to the calculator is %s, not the caller\'s state' % (
                         adt, [prov.show(a, maxdepth=3) for c in st for a in c[1]] or 'missing'))
-        # (c) difficulty step with the captured Difficulty
-        df = [c for c in chain if c[0] == 'difficulty']
-        ok_c = len(df) == 1 and len(df[0][1]) == 1 and as_param_path(df[0][1][0]) == (1, ('difficulty', 'difficulty'))
-        n2 += 1
-        ctx.require(ok_c, 'C03-R2', '%s:nth:difficulty' % mode, '.difficulty(self.difficulty.difficulty.clone()) restores the captured settings', nth.where(),
-                    bad='%s::nth: captured Difficulty is not forwarded (difficulty step: %s)' % (
-                        adt, [prov.show(a, maxdepth=3) for c in df for a in c[1]] or 'missing'))
+        # (c) every Difficulty setting the performance calculation of this mode consults (with attributes given) must reach
+        #     calculate() from the captured Difficulty; passed_objects from the calculator's own position
+        consulted = consulted_settings(F, mode)
+        final = simulate_settings(F, adt, new, chain)
+        for g in sorted(consulted):
+            setting = g[4:]
+            src = final.get(setting, final.get('*', 'default'))
+            n2 += 1
+            if setting == 'passed_objects':
+                ctx.require(src == 'idx', 'C03-R2', '%s:nth:setting:%s' % (mode, setting), 'passed_objects <- the gradual calculator\'s own position (self.difficulty.idx)',
+                            nth.where(), bad='%s::nth: passed_objects reaches calculate() from `%s`, not from the calculator\'s position' % (adt, src))
+            else:
+                ctx.require(src == 'captured', 'C03-R2', '%s:nth:setting:%s' % (mode, setting), '%s <- captured Difficulty' % setting, nth.where(),
+                            bad='%s::nth: the `%s` setting consulted by %sPerformance (Difficulty::%s) reaches calculate() from `%s`, not from the Difficulty the '
+                                'gradual calculator was created with' % (adt, setting, CAP[mode], g, src))
         # (d) performance() on the attributes
         ok_d = 'performance' in names or 'into_performance' in names or 'from' in names
         n2 += 1
@@ -114,5 +178,5 @@ def run(ctx):
                     bad='%s::nth: no .performance() on the prefix attributes in the chain %s' % (adt, names))
         ctx.note('%s::nth chain (outermost first): %s' % (adt, names))
     ctx.floor('C03-R1', n1, 4, 'GradualPerformance::new')
-    ctx.floor('C03-R2', n2, 16, 'nth flow slots')
+    ctx.floor('C03-R2', n2, 20, 'nth flow slots')
     ctx.not_decided('equality of the gradual value with the one-shot Performance(passed_objects(i), state) value')
